@@ -1,6 +1,7 @@
 import CssVerif.Lemmas.Encutils
 import CssVerif.Lemmas.EncutilsDoc
 import CssVerif.Lemmas.EncutilsXml
+import CssVerif.Lemmas.EncutilsXmlReader
 /-!
 # C20 — encutils reports the document encoding by the documented precedence
 
@@ -474,6 +475,28 @@ example : XMLDecl (cps "<?xml\nversion = '1.1'?>") none :=
   ⟨cps "\nversion = '1.1'", [], [], [], by decide,
     ⟨cps "1.1", cps "\n", cps " ", cps " ", 39, by decide, by decide, by decide, by decide, by decide, Or.inr rfl,
       ⟨cps "1", by decide, by decide, by decide⟩⟩, rfl, Or.inl rfl, by decide⟩
+
+/-- the executable strict reader (`parseXmlDecl`, run by the driver and compared with the oracle's independent strict
+parser on generated documents) accepts only declarations of the grammar, with that EncName -/
+theorem strict_reader_sound (buf : Cps) (enc : Option Cps) (rest : Cps) (h : parseXmlDecl buf = some (enc, rest)) :
+    ∃ d, buf = d ++ rest ∧ XMLDecl d enc := parseXmlDecl_sound buf enc rest h
+
+/-- whatever the strict reader accepts within the window, the sniffer of the code reads the same way -/
+theorem strict_reader_agrees (buf : Cps) (enc : Option Cps) (rest : Cps) (incl : Bool)
+    (h : parseXmlDecl buf = some (enc, rest)) (hfit : buf.length - rest.length ≤ 2048) :
+    detectXML buf incl = .ok (match enc with
+      | some e => some (lower e)
+      | none => if incl then some (cps "utf-8") else none) := by
+  obtain ⟨d, rfl, hd⟩ := parseXmlDecl_sound buf enc rest h
+  have hl : d.length ≤ 2048 := by simpa using hfit
+  cases enc with
+  | some e => exact strict_declaration_read d e rest incl hd hl
+  | none => exact strict_declaration_no_encoding d rest incl hd hl
+
+example : parseXmlDecl (cps "<?xml version='1.0' encoding=\"Latin-1\"?><a/>") = some (some (cps "Latin-1"), cps "<a/>") := by
+  decide
+example : parseXmlDecl (cps "<?xml version=\"1.0\" standalone='no' ?>x") = some (none, cps "x") := by decide
+example : parseXmlDecl (cps "<?xml version=\"1.0\" encoding=\"a'?>") = none := by decide
 
 /-- the two former declaration findings at their witnesses, now the right way round (tests): a legal declaration that
 continues on the next line is found; an element attribute after a declaration without encoding is ignored; another
